@@ -1127,6 +1127,10 @@ impl Tree {
         let partitions_s = self.get_partitions_with_lengths()?;
         let partitions_o = other.get_partitions_with_lengths()?;
 
+        if *(self.leaf_index.borrow()) != *(other.leaf_index.borrow()) {
+            return Err(TreeError::DifferentTipIndices);
+        }
+
         let tot = partitions_o.len() + partitions_s.len();
 
         let mut intersection = 0.;
